@@ -37,10 +37,12 @@ def load_baseline(unit):
         return json.load(f)
 
 
-def _verus_once(unit, unit_dir, tag, vacuity=False, mutate=None, threads=8):
+def _verus_once(unit, unit_dir, tag, vacuity=False, mutate=None, threads=8, edit=None):
     wd = os.path.join(WORK, unit, tag)
     os.makedirs(wd, exist_ok=True)
     g = G.generate(unit_dir, vacuity=vacuity, mutate=mutate)
+    if edit:
+        g['text'] = edit(g['text'])
     path = os.path.join(wd, unit.replace('-', '_') + '.rs')
     with open(path, 'w') as f:
         f.write(g['text'])
@@ -102,6 +104,37 @@ def run_verus_unit(unit, tier):
         r['status'] = 'undecided'
         r['notes'].append(f'canary obligations unexpectedly verified (vacuous contracts?): {bad_canaries}')
     r['canaries'] = {'total': len(canaries), 'failed_as_expected': len(canaries) - len(bad_canaries)}
+    # Proof hints (asserts of the TEMPLATE text inside extracted functions) are not obligations of a property. A hint that
+    # no longer holds on the current text (e.g. the statement it was anchored on moved) is dropped and the contract clauses
+    # are attempted without it: only a contract clause / a check in repository text that then fails is reported.
+    if an['status'] == 'fail' and any(f.get('hint') for f in fails):
+        dropped_hints = []
+        positions = []
+        cur_fails = fails
+        for round_ in range(5):
+            hs = [f for f in cur_fails if f.get('hint')]
+            if not hs:
+                break
+            positions += [(f['gen_line'], f['gen_col']) for f in hs]
+            dropped_hints += [f['id'] for f in hs]
+            try:
+                g3, res3, an3 = _verus_once(unit, unit_dir, 'nohint', edit=lambda t, ps=list(positions): V.blank_hint_asserts(t, ps)[0])
+            except SliceError:
+                break
+            if an3['status'] == 'undecided':
+                break
+            cur_fails = [f for f in an3['failures'] if not (f['id'].split('.')[1] if '.' in f['id'] else '').startswith('canary_')]
+            an = an3
+            fails = cur_fails
+        r['notes'].append(f"proof hints that did not hold on the current text were dropped and the unit re-verified without them: {sorted(set(dropped_hints))}")
+        if any(f.get('hint') for f in fails):
+            # hints keep failing after 5 rounds: not a statement about the property
+            fails = [f for f in fails if not f.get('hint')]
+            if not fails:
+                an = dict(an, status='undecided')
+                an.setdefault('hard_errors', [])
+        elif not fails:
+            an = dict(an, status='ok')
     r['failed'] = fails
     if an['status'] == 'undecided':
         r['status'] = 'undecided'
